@@ -1,8 +1,8 @@
 (** Model of proxy/http_headers.go ([addHeaders], [addResponseHeaders], [scheme],
     [localPort], [uint16base16], [i32toa]) and of the part of
     [HTTPProxy.ServeHTTP] (proxy/http_proxy.go) that decides what the upstream sees
-    in the headers fabio manages: request-id header, the [host=] rewrite of
-    [r.Host] BEFORE [addHeaders], and the choice between the websocket handler
+    in the headers fabio manages: request-id header, [addHeaders], then the [host=] rewrite of
+    [r.Host] (after [addHeaders] since the repair 7dd13e1), and the choice between the websocket handler
     ([Upgrade] is exactly "websocket" or "Websocket") and [httputil.ReverseProxy].
     The model follows the repair afbb806 (addHeaders and scheme recognise both spellings).
 
@@ -255,23 +255,40 @@ Record target := {
 Definition takes_ws_path (h : hmap) : bool :=
   let up := hget h K_UPGRADE in beq up (bs "websocket") || beq up (bs "Websocket").
 
-(* r.Host after the host= rewrite (http_proxy.go:157-161), which runs before addHeaders *)
+(* r.Host after the host= rewrite.  Since the repair 7dd13e1 the rewrite runs AFTER
+   addHeaders (http_proxy.go: "rewrite the Host header only after the forwarding headers
+   have been derived from the host the client asked for"); before it, it ran first (kept
+   below as [serve_host_first_unrepaired] for the refutation theorem of F-C08-1). *)
 Definition rewritten_host (t : target) (host : str) : str :=
   if beq (t_host t) (bs "dst") then t_url_host t
   else if negb (sempty (t_host t)) then t_host t else host.
 
+(* the request addHeaders sees in ServeHTTP: request-id header set, Host still the client's *)
+Definition req_with_reqid (cfg : config) (uuid : str) (r : request) : request :=
+  {| r_peer := r_peer r; r_host := r_host r; r_tls := r_tls r; r_proto := r_proto r;
+     r_hdr := cset (negb (sempty (c_reqid cfg))) (r_hdr r) (canon_key (c_reqid cfg)) uuid |}.
+
 (* Ok (header map at the upstream, Strict-Transport-Security Set on the response);
-   Err 0 = 500 "cannot parse", the upstream is not contacted *)
+   Err 0 = 500 "cannot parse", the upstream is not contacted.
+   Order: request-id header, addHeaders, host= rewrite of r.Host, addResponseHeaders,
+   websocket handler / ReverseProxy.  The rewritten r.Host does not influence any managed
+   header any more; what the upstream receives as Host is [upstream_host]. *)
 Definition serve (cfg : config) (t : target) (uuid : str) (r : request) : outcome (hmap * option str) :=
-  let h0 := cset (negb (sempty (c_reqid cfg))) (r_hdr r) (canon_key (c_reqid cfg)) uuid in
-  let r' := {| r_peer := r_peer r; r_host := rewritten_host t (r_host r); r_tls := r_tls r;
-               r_proto := r_proto r; r_hdr := h0 |} in
-  do h <- add_headers cfg (t_strip t) r';
+  do h <- add_headers cfg (t_strip t) (req_with_reqid cfg uuid r);
+  let _host := rewritten_host t (r_host r) in
   let sts := add_response_headers cfg (is_tls r) in
   match r_peer r with
   | None => Err 0
   | Some peer => Ok (if takes_ws_path h then wire h else rp_out peer h, sts)
   end.
+
+(* The Host the upstream receives: the rewritten r.Host; on the websocket path
+   Request.Write falls back to r.URL.Host (= the target's) when r.Host is empty, on the
+   ReverseProxy path the transport is handed the request with Host as it is. *)
+Definition upstream_host (cfg : config) (t : target) (uuid : str) (r : request) : outcome str :=
+  do h <- add_headers cfg (t_strip t) (req_with_reqid cfg uuid r);
+  let host := rewritten_host t (r_host r) in
+  Ok (if takes_ws_path h && sempty host then t_url_host t else host).
 
 (* ---------------- before the repair afbb806 (F-C08-2, fixed) ----------------
    addHeaders and scheme recognised only the lower-case spelling while ServeHTTP sent
@@ -321,6 +338,22 @@ Definition serve_unrepaired (cfg : config) (t : target) (uuid : str) (r : reques
   let r' := {| r_peer := r_peer r; r_host := rewritten_host t (r_host r); r_tls := r_tls r;
                r_proto := r_proto r; r_hdr := h0 |} in
   do h <- add_headers_unrepaired cfg (t_strip t) r';
+  let sts := add_response_headers cfg (is_tls r) in
+  match r_peer r with
+  | None => Err 0
+  | Some peer => Ok (if takes_ws_path h then wire h else rp_out peer h, sts)
+  end.
+
+(* ---------------- before the repair 7dd13e1 (F-C08-1, fixed) ----------------
+   ServeHTTP rewrote r.Host for host= routes BEFORE addHeaders, which derives
+   X-Forwarded-Host / -Port from r.Host.  ([serve_unrepaired] above is the code before both
+   repairs: it has this order too.)  Used by the refutation theorem only. *)
+Definition serve_host_first_unrepaired (cfg : config) (t : target) (uuid : str) (r : request)
+  : outcome (hmap * option str) :=
+  let h0 := cset (negb (sempty (c_reqid cfg))) (r_hdr r) (canon_key (c_reqid cfg)) uuid in
+  let r' := {| r_peer := r_peer r; r_host := rewritten_host t (r_host r); r_tls := r_tls r;
+               r_proto := r_proto r; r_hdr := h0 |} in
+  do h <- add_headers cfg (t_strip t) r';
   let sts := add_response_headers cfg (is_tls r) in
   match r_peer r with
   | None => Err 0
